@@ -242,6 +242,22 @@ func verif_ProxyConfigurer_GetBaseConfig(c ProxyConfigurer) {
 	verif.Ensures(b == VerifBaseOf(c), "the_embedded_base")
 }
 
+// MarshalToMsg fills the registration message from the configuration: it
+// writes the message only, and the message carries the configuration's name
+// and type.
+//
+//verif:contract (~/pkg/config/v1.ProxyConfigurer).MarshalToMsg
+//verif:impls *~/pkg/config/v1.TCPProxyConfig *~/pkg/config/v1.UDPProxyConfig *~/pkg/config/v1.HTTPProxyConfig *~/pkg/config/v1.HTTPSProxyConfig *~/pkg/config/v1.TCPMuxProxyConfig *~/pkg/config/v1.STCPProxyConfig *~/pkg/config/v1.XTCPProxyConfig *~/pkg/config/v1.SUDPProxyConfig
+//verif:props C18 C19
+//verif:modifies H.pkg.msg.NewProxy.
+//verif:inline-known
+func verif_ProxyConfigurer_MarshalToMsg(c ProxyConfigurer, m *msg.NewProxy) {
+	verif.Requires(m != nil, "message_present")
+	c.MarshalToMsg(m)
+	b := VerifBaseOf(c)
+	verif.Ensures(b != nil && m.ProxyName == b.Name && m.ProxyType == b.Type, "message_names_the_proxy")
+}
+
 //verif:det-fn reflect.TypeOf
 //verif:table ~/pkg/config/v1.proxyConfigTypeMap
 
